@@ -86,6 +86,20 @@ def gen_cases(rng, tier):
             for j in range(i):
                 h1[i][j] = h1[j][i] = rng.choice([0, 1, -1, 2])
         cases.append({'kind': 'fqe', 'norb': norb, 'na': na, 'nb': nb, 'h1': h1, 'nroots': 1, 'seed': rng.randrange(10 ** 6)})
+    # interacting restricted Hamiltonians (hopping + on-site repulsion + a few density-density terms), equal numbers of
+    # alpha and beta electrons, two roots: the second root is typically of another spin symmetry than the first
+    for _ in range(3 if tier == 'quick' else 15):
+        norb = 5            # dimension 100: large enough for the solver to converge inside an invariant subspace
+        na = nb = 2
+        h1 = [[0] * norb for _ in range(norb)]
+        for i in range(norb):
+            h1[i][i] = rng.randint(-2, 2)
+            for j in range(i):
+                h1[i][j] = h1[j][i] = rng.choice([1, -1, 2, 1])
+        U = rng.choice([2, 3, 4])
+        dd = [[i, j, rng.choice([1, -1])] for i in range(norb) for j in range(i) if rng.random() < 0.4]
+        cases.append({'kind': 'fqe', 'norb': norb, 'na': na, 'nb': nb, 'h1': h1, 'U': U, 'dd': dd, 'nroots': 2,
+                      'seed': rng.randrange(10 ** 6)})
     return cases
 
 
@@ -120,7 +134,16 @@ def run_impl(case, mode):
         import fqe
         norb = case['norb']
         numpy.random.seed(case['seed'])
-        ham = fqe.get_restricted_hamiltonian((numpy.array(case['h1'], dtype=complex),))
+        if 'U' in case:
+            h2 = numpy.zeros((norb,) * 4)
+            for i in range(norb):
+                h2[i, i, i, i] = -0.5 * case['U']          # U n_up n_down in FQE's pairing (i with k, j with l)
+            for i, j, v in case['dd']:
+                for p, q in ((i, j), (j, i)):
+                    h2[p, q, p, q] += -0.5 * v             # v (n_i n_j) between different orbitals
+            ham = fqe.get_restricted_hamiltonian((numpy.array(case['h1'], dtype=float), h2))
+        else:
+            ham = fqe.get_restricted_hamiltonian((numpy.array(case['h1'], dtype=complex),))
         nele, sz = case['na'] + case['nb'], case['na'] - case['nb']
         try:
             w, vecs = davidson.davidson_diagonalization(ham, case['na'], case['nb'], nroots=case['nroots'])
